@@ -139,6 +139,16 @@ Example C10_nonvacuous :
   Qlt 0 ex10_Z.
 Proof. exact C10_example. Qed.
 
+(** the hypotheses of the Stage-3 theorems are satisfiable (same caterpillar, real-valued data) *)
+Example C10_nonvacuous_tree_hypotheses :
+  (forall e i j, (0 <= ex10R_lik e i j)%R) /\ (forall u x, In x (ex10R_prior u) -> (0 <= x)%R) /\
+  inside_order ex10R_fixed [] (groupby e_parent ex10R_es) /\
+  tree_ok 3 ex10R_fixed ex10R_prior (groupby e_parent ex10R_es) ex10R_tree /\
+  all_pos 3 ex10R_lik ex10R_prior ex10R_tree /\
+  Permutation (inodes ex10R_tree) (filter (fun p => negb (ex10R_fixed p)) (map fst (groupby e_parent ex10R_es))) /\
+  U ex10R_lik ex10R_prior ex10R_tree 2 = 3%R.
+Proof. exact C10_real_example. Qed.
+
 (** NOT proved: (a) the posterior of the NON-ROOT internal nodes against brute force (the
     top-down induction for the outside pass, [C10_posterior_exact] of DESIGN.md; the outside
     pass is specified at message level in proofs/DiscreteOutside.v and checked on the worked
